@@ -18,7 +18,12 @@ const (
 var c12Unmarshal = []string{
 	"google.golang.org/protobuf/proto.Unmarshal",
 	"github.com/golang/protobuf/proto.Unmarshal",
+	c12UnmarshalOpt,
 }
+
+// c12UnmarshalOpt is the options form; with Merge set it does not reset the
+// target first (library API).
+const c12UnmarshalOpt = "google.golang.org/protobuf/proto.(UnmarshalOptions).Unmarshal"
 
 func init() {
 	kit.Register(&kit.Prop{
@@ -60,6 +65,7 @@ func runC12(c *kit.Ctx) {
 	r2 := c.Rule("R2", "nested message fields are nil-safe", 2)
 	r3 := c.Rule("R3", "parser indices are implied by length guards", 25)
 	r4 := c.Rule("R4", "Unmarshal error decides before the message is used", 6)
+	r5 := c.Rule("R5", "the decode target is empty when it is filled", 6)
 
 	// ---- R1
 	pairs, codecs := c12DiscoverCodecs(c)
@@ -107,7 +113,7 @@ func runC12(c *kit.Ctx) {
 	}
 
 	// ---- R4
-	c12UnmarshalRule(c, r4, codecs)
+	c12UnmarshalRule(c, r4, r5, codecs)
 }
 
 // ===========================================================================
@@ -411,7 +417,7 @@ func c12Contains(t types.Type, set map[*types.TypeName]bool, seen map[*types.Typ
 	return false
 }
 
-func c12UnmarshalRule(c *kit.Ctx, r *kit.Rule, codecs map[types.Object]*c12Codec) {
+func c12UnmarshalRule(c *kit.Ctx, r, r5 *kit.Rule, codecs map[types.Object]*c12Codec) {
 	msgs := c12MsgTypes(codecs)
 	other := 0
 	for _, rel := range c12Rels(c) {
@@ -432,6 +438,7 @@ func c12UnmarshalRule(c *kit.Ctx, r *kit.Rule, codecs map[types.Object]*c12Codec
 					continue
 				}
 				c12CheckUnmarshal(c, r, f, call)
+				c12CheckFresh(c, r5, f, call)
 			}
 		}
 	}
